@@ -211,6 +211,10 @@ NonLeaf(h) ==
              \cup {CallP(lam3(bodyHole(sp[2])), <<Hole("Int", sp[1], ns, ss)>>) : sp \in Split2(r)}
              \cup {CallK(lam3(bodyHole(sp[3])), <<Hole("Int", sp[1], ns, ss)>>, <<"z">>, <<Hole("Int", sp[2], ns, ss)>>) :
                        sp \in Split3(r)}
+             \* a default that is an expression of the ENCLOSING scope (Python evaluates defaults outside the lambda)
+             \cup {CallP(T("lam", "", 1, <<"x", "y">>,
+                           <<BinOp("+", BinOp("*", Name("x"), IntC(10)), Name("y")), Hole("Int", 0, ns, ss)>>),
+                         <<Hole("Int", r, ns, ss)>>)}
        ELSE {}) \cup
       (IF s = "Int" /\ Enabled("Beta2") THEN
           {CallP(Lam(<<x, z>>, Hole("Int", sp[3], ns \o <<x, z>>, ss \o <<SortT("Int"), SortT("Jet")>>)),
